@@ -452,6 +452,7 @@ OpenList ==
        /\ loose' = LooseAfter(sep)
        /\ last' = [kind |-> "none", mtype |-> "", inner |-> "none"]
        /\ tags' = tags \cup (IF bs THEN {"item-begins-with-blank-line"} ELSE {})
+                       \cup (IF SepKind(m) = "olist" THEN LazyTag(sep) ELSE {})      \* cannot interrupt a paragraph, so it is what the reader takes for lazy text
        /\ nblocks' = IF bs THEN nblocks + 1 ELSE nblocks       \* an item that may stay empty counts against the budget
        /\ UNCHANGED <<defs, phase, target>>
 
